@@ -62,6 +62,15 @@ func (h *history) retain(c *core.Ctx, idx int64, ret, own []byte, con cty.Type, 
 	e := h.ring[0]
 	h.ring = h.ring[1:]
 	h.evicted++
+	// The caller is done with this result and re-uses the slice it was given, as the owner of returned bytes may:
+	// it writes over them and appends into their storage. If the library still shares that storage (a package-level
+	// constant handed out, a pooled buffer), later Marshal results are corrupted and their round trips fail.
+	defer func(b []byte) {
+		for i := range b {
+			b[i] = 0xc1 // never a valid msgpack lead byte
+		}
+		_ = append(b[:0], 0xc1, 0xc1, 0xc1, 0xc1)
+	}(e.ret)
 	if h.evicted%4 != 0 {
 		return
 	}
